@@ -72,7 +72,7 @@ theorem C16_cancel_true_iff_started (s : State) (h : Bytes) :
   | some want =>
     by_cases hw : want = h
     · subst hw
-      by_cases hr : s.blockReader = true <;> simp [hr]
+      by_cases hr : s.blockReader = true <;> by_cases hst : s.blockStarted = true <;> simp [hr, hst]
     · have hw' : ¬ (some want = some h) := by intro hc; exact hw (Option.some.inj hc)
       simp [hw, hw']
 
@@ -101,21 +101,30 @@ theorem C16_cancel_keeps_request (s : State) (h : Bytes) (hr : s.blockReader = f
     · have hw' : ¬ (some want = some h) := by intro hc; exact hw (Option.some.inj hc)
       simp [hw, hw', hq]
 
-/-- an in-progress cancel ends the connection: the node is stopped, the request is completed (not
-    busy), `onStop` is not invoked later (disarmed), and the handler, if it had been started, has
-    been given the end of its stream (it returned an error). -/
+/-- an in-progress cancel ends the connection: the node is stopped and `onStop` is not invoked
+    (neither now nor later). If the handler had been started the request is completed (not busy)
+    and the handler has been given the end of its stream (it returned an error). -/
 theorem C16_cancel_in_progress_ends (s : State) (h : Bytes) (hq : s.blockReq = some h)
     (hr : s.blockReader = true) :
-    (cancelBlock s h).1.stopped = true ∧ (cancelBlock s h).1.busy = false ∧
-    (cancelBlock s h).1.onStopArmed = false ∧ (cancelBlock s h).1.onStopCalls = s.onStopCalls ∧
-    (s.bh.called = true → s.bh.done = none → (cancelBlock s h).1.bh.done = some false) := by
+    (cancelBlock s h).1.stopped = true ∧ (cancelBlock s h).1.onStopArmed = false ∧
+    (cancelBlock s h).1.onStopCalls = s.onStopCalls ∧
+    (s.blockStarted = true → (cancelBlock s h).1.busy = false ∧
+      (s.bh.called = true → s.bh.done = none → (cancelBlock s h).1.bh.done = some false)) := by
   unfold cancelBlock
   simp only [hq, ne_eq, not_true_eq_false, ↓reduceIte, hr]
-  unfold connectionEnd streamFailed runEnd State.busy failedRec
-  simp only [hr, ↓reduceIte, hq, completeBlock, Bool.false_eq_true]
-  refine ⟨by simp, by simp, by simp, by simp, ?_⟩
-  intro h1 h2
-  simp [h1, h2]
+  by_cases hst : s.blockStarted = true
+  · simp only [hst, ↓reduceIte]
+    unfold connectionEnd streamFailed runEnd State.busy failedRec
+    simp only [hr, hst, Bool.and_self, ↓reduceIte, completeBlock, hq, Bool.false_eq_true]
+    refine ⟨by simp, by simp, by simp, fun _ => ⟨by simp, ?_⟩⟩
+    intro h1 h2
+    simp [h1, h2]
+  · simp only [hst, Bool.false_eq_true, ↓reduceIte]
+    unfold runEnd
+    simp only [Bool.false_eq_true, ↓reduceIte]
+    refine ⟨by simp, by simp, by simp, ?_⟩
+    intro h'
+    exact absurd h' (by simp)
 
 /-- **one request at a time.** While a request is outstanding `RequestBlock` is refused and
     changes nothing; on an idle node it is accepted, the node is busy and `onStop` is armed. -/
@@ -139,7 +148,7 @@ theorem connectionEnd_disarms (s : State) : (connectionEnd s).1.onStopArmed = fa
 
 theorem streamFailed_armed (s : State) (h : s.onStopArmed = false) : (streamFailed s).onStopArmed = false := by
   unfold streamFailed
-  by_cases hr : s.blockReader = true
+  by_cases hr : (s.blockReader && s.blockStarted) = true
   · simp only [hr, ↓reduceIte]
     cases hq : s.blockReq with
     | none => exact h
@@ -154,25 +163,33 @@ theorem connectionEnd_needs_armed (s : State) (h : s.onStopArmed = false) : (con
 theorem C16_onstop_at_most_once (s : State) : (connectionEnd (connectionEnd s).1).2 = false :=
   connectionEnd_needs_armed _ (connectionEnd_disarms s)
 
-/-- **onStop only for an outstanding, uncancelled request whose block message has not begun.** In
-    every reachable state: if the end of the connection invokes `onStop` then a request is
-    outstanding, its handler is still installed (not cancelled) and `handleBlock` is not
-    streaming it. -/
+/-- **onStop only for an outstanding, uncancelled request whose handler has not been started.**
+    In every reachable state: if the end of the connection invokes `onStop` then a request is
+    outstanding, its handler is still installed (not cancelled) and the handler thread was not
+    started (the block message has not begun, or broke off before the transaction count). -/
 theorem C16_onstop_only_outstanding (e : Env) (s : State) (h : Reach e s) (hc : (connectionEnd s).2 = true) :
-    s.blockReq.isSome = true ∧ s.blockHandler = true ∧ s.blockReader = false := by
+    s.blockReq.isSome = true ∧ s.blockHandler = true ∧ s.blockStarted = false := by
   have hB := reach_blk e s h
   by_cases ha : s.onStopArmed = true
   · refine ⟨(hB.armed ha).1, (hB.armed ha).2, ?_⟩
-    by_cases hr : s.blockReader = true
+    by_cases hst : s.blockStarted = true
     · exfalso
+      have hr := (hB.started hst).1
       have hq := hB.reader hr
       cases hq' : s.blockReq with
       | none => rw [hq'] at hq; cases hq
       | some x =>
         unfold connectionEnd runEnd streamFailed at hc
-        simp [hr, hq', completeBlock] at hc
-    · simpa using hr
+        simp [hr, hst, hq', completeBlock] at hc
+    · simpa using hst
   · rw [connectionEnd_needs_armed s (by simpa using ha)] at hc; cases hc
+
+/-- conversely an outstanding, uncancelled request whose handler was not started IS reported:
+    the end of the connection invokes `onStop` (exactly once, `C16_onstop_at_most_once`). -/
+theorem C16_onstop_fires (s : State) (ha : s.onStopArmed = true) (hst : s.blockStarted = false) :
+    (connectionEnd s).2 = true ∧ (connectionEnd s).1.onStopCalls = s.onStopCalls + 1 := by
+  unfold connectionEnd streamFailed runEnd
+  simp [hst, ha]
 
 /-- `handleBlock` on the block of a cancelled request (handler dropped): the request is completed
     (the node is idle again), nothing is handed to anybody, and the message is consumed to exactly
@@ -223,7 +240,7 @@ example : (cancelBlock asked [1, 2, 3]).2 = false ∧ (cancelBlock streaming [1,
     (cancelBlock started [1, 2, 3]).2 = true ∧ (cancelBlock started [7]).2 = false ∧
     (cancelBlock started [1, 2, 3]).1.bh.done = some false := by decide +kernel
 example : (connectionEnd asked).2 = true ∧ (connectionEnd (cancelBlock asked [1, 2, 3]).1).2 = false ∧
-    (connectionEnd streaming).2 = false := by decide +kernel
+    (connectionEnd streaming).2 = true ∧ (connectionEnd started).2 = false := by decide +kernel
 example : (cancelBlock asked [1, 2, 3]).1.busy = true := by decide +kernel
 
 end Example
